@@ -130,7 +130,9 @@ def content(m):
     for t in m:
         cells = []
         for s in m[t]:
-            if id(s) in ids:
+            if s is None:                    # a padded cell (NeXML rows that lost their columns)
+                cells.append(-1)
+            elif id(s) in ids:
                 cells.append(ids[id(s)])
             else:
                 cells.append(s.index)
@@ -1035,6 +1037,32 @@ def slim(obs):
     return o
 
 
+def exhaustive_cases():
+    """thorough tier: every single state of every data type, as a 1x1 and in a 2x2 matrix, through
+    every format / variant (labels "t", "a b" and a 10-character label where admissible)"""
+    out = []
+    for dt in DISCRETE:
+        n = len(TABS[dt]["states"])
+        for i in range(n):
+            mats = [[["t", [i]]], [["a b", [i, (i + 1) % n]], ["exactly10c", [(i + 2) % n, i]]]]
+            for rows in mats:
+                labels = [l for l, _ in rows]
+                route = {"r": "from_dict", "dt": dt, "rows": rows}
+                for wkw in ({}, {"wrap": False}, {"wrap": True, "wrap_width": 1}):
+                    out.append({"kind": "write", "dt": dt, "fmt": "fasta", "route": route, "wkw": wkw, "rkw": {}})
+                for wkw, rkw in all_phylip_variants():
+                    if wkw["spaces_to_underscores"] != rkw["underscores_to_spaces"]:
+                        continue
+                    if phylip_labels_ok(labels, wkw, rkw):
+                        out.append({"kind": "write", "dt": dt, "fmt": "phylip", "route": route, "wkw": wkw, "rkw": rkw})
+                for wkw in ({}, {"simple": True}):
+                    c = {"kind": "write", "dt": dt, "fmt": "nexus", "route": route, "wkw": wkw, "rkw": {}}
+                    if dt in ("restriction", "infinite"):
+                        c["read_dt"] = dt
+                    out.append(c)
+    return out
+
+
 def gen_cases(rng, tier):
     n_write = 330 if tier == "quick" else 4000
     n_text = 170 if tier == "quick" else 2500
@@ -1054,6 +1082,10 @@ def gen_cases(rng, tier):
                 _w, rk = rng.choice(list(all_phylip_variants()))
                 reads.append(read_case_from(c, rkw=rk))
     texts = [gen_text_read_case(rng, tier) for _ in range(n_text)]
+    if tier == "thorough":
+        ex = exhaustive_cases()
+        cases = cases + ex
+        reads = reads + [read_case_from(c) for c in ex if rng.random() < 0.25]
     return cases + reads + texts
 
 
@@ -1091,7 +1123,22 @@ def run(tier, seed, replay=None):
                     nontrivial=nontrivial, search=search, shard=70,
                     sample_fn=lambda c, o: {"case": {k: v for k, v in c.items() if k != "route"}, "observed": str(slim(o))[:600]})
     run_pipelines(ctx, tier)
-    return ctx.finish(level="proof", rule="see manifest")
+    return ctx.finish(
+        level="proof",
+        rule=("atomic cases: (1) WRITE - a matrix over the full state set of a data type (dna, rna, nucleotide, protein, "
+              "standard, restriction, infinite; 1..8 taxa x 1..30 (..141) characters incl. 1xN and Nx1; labels from pools with "
+              "spaces, underscores, >10 characters, punctuation, case variants, non-ASCII) built by from_dict / new_taxon / "
+              "concatenate / export_character_indices / parsing FASTA, PHYLIP, NEXUS or NeXML, written as FASTA (wrap on/off, "
+              "widths), PHYLIP (strict/relaxed x space-underscore conversion) or NEXUS (CHARACTERS or DATA block): the text "
+              "(NEXUS: the token list from the real tokenizer) must equal the writer model's; the implementation also reads "
+              "it back and the oracle demands the same taxa in the same order with the same symbols when the labels are "
+              "admissible for the variant; (2) READ - the same texts, the same texts under other reader variants, and texts "
+              "laid out by the harness (wrapped / interleaved pages / continuation lines / lower case / inner blanks / "
+              "multistate tokens / MATCHCHAR / CRLF / wrong counts / unknown symbols / repeated names): parsed (labels, states) "
+              "or the error class must equal the reader model's; (3) oracle-only pipelines: NeXML (cells or seq markup), "
+              "continuous matrices through NEXUS/PHYLIP/NeXML, data sets with 1-3 namespaces x matrices x tree lists written "
+              "to NEXUS (suppress_block_titles default / False) and NeXML, symbol-less multistates. A case is non-trivial when "
+              "it has at least one row and (write) the writer succeeded / (read) the reader delivered a matrix; distinct by full case content."))
 
 
 # ----------------------------------------------------------------------------
